@@ -72,6 +72,39 @@ RUN_FLAGS_WITH_ARG = frozenset(
         "--group",
         "--extra",
         "--package",
+        "--with-editable",
+        "--env-file",
+        "--no-group",
+        "--only-group",
+        "--no-extra",
+        "--config-file",
+        "--cache-dir",
+        "--color",
+        "--index",
+        "--default-index",
+        "--index-url",
+        "-i",
+        "--extra-index-url",
+        "--find-links",
+        "-f",
+        "--index-strategy",
+        "--keyring-provider",
+        "--upgrade-package",
+        "-P",
+        "--resolution",
+        "--prerelease",
+        "--fork-strategy",
+        "--exclude-newer",
+        "--config-setting",
+        "-C",
+        "--no-build-isolation-package",
+        "--no-build-package",
+        "--no-binary-package",
+        "--refresh-package",
+        "--reinstall-package",
+        "--link-mode",
+        "--allow-insecure-host",
+        "--python-platform",
     }
 )
 
